@@ -123,6 +123,9 @@ def feature_models(tier, seed):
     return out
 
 
+PINNED_C13_DUP = "F @ M1.1.0;c61=1,2;t2=3,4;t2=3,4 0 6162"
+
+
 def feature_matrix(tier, seed):
     """C13: one binary per cargo-feature subset of vaporetto, all run on the same cases; every output is compared with the
     model under the matching configuration and with the default build"""
@@ -132,6 +135,9 @@ def feature_matrix(tier, seed):
         out["failures"].append({"what": "generator failed", "stderr": g.stderr[-500:]})
         return out
     cases = g.stdout.splitlines()
+    # the open finding F-C13dup (known_findings.json), last so that it never hides another difference: a model file that lists one
+    # character-type n-gram twice
+    cases.append(PINNED_C13_DUP)
     results = {}
     builds = _feat_builds(tier)
     nightly_ok = False
@@ -182,8 +188,11 @@ def feature_matrix(tier, seed):
                 a2, b2 = a.split(";")[:2], b.split(";")[:2]
                 tags_both = ";K" in a and ";K" in b
                 if a2 != b2 or (tags_both and a != b):
-                    out["failures"].append({"what": f"feature build {name} gives a different result than the default build",
-                                            "case": cases[i], "default": a[:500], name: b[:500]})
+                    fl = {"what": f"feature build {name} gives a different result than the default build",
+                          "case": cases[i], "default": a[:500], name: b[:500]}
+                    if cases[i].split(" ", 2)[2:] == PINNED_C13_DUP.split(" ", 2)[2:] and a.startswith("err:invalid_model") and b.startswith("S"):
+                        fl["known_id"] = "F-C13dup"     # exactly the recorded finding; anything else on this case is reported
+                    out["failures"].append(fl)
                     break
     return out
 
